@@ -163,7 +163,15 @@ def run(case, ctx):
         if got_order != want_order:
             ctx.violate("C06/order", f"schema.rules order {got_order}, stable shortest-first is {want_order}; "
                         f"path lengths {[lens[i] for i in perm]}")
-        ok, vd = call(schema.validate, doc)
+        # history: the same wrapped document was validated by this schema when it had fewer rules
+        Dw = valida.Data(doc)
+        if n >= 2:
+            last = schema.rules.pop()
+            call(schema.validate, Dw)
+            schema.rules.append(last)
+            ok, vd = call(schema.validate, Dw)
+        else:
+            ok, vd = call(schema.validate, doc)
         if not ok:
             ctx.violate(f"C06/{vd.key()}", f"validate raised {vd!r}; rules={given}")
             return
